@@ -24,6 +24,7 @@
 #include "LinAlg/DoubleShiftQR.h"
 #include "LinAlg/UpperHessenbergEigen.h"
 #include "LinAlg/Arnoldi.h"
+#include "Util/VerifHooks.h"
 
 namespace Spectra {
 
@@ -37,6 +38,9 @@ namespace Spectra {
 template <typename OpType, typename BOpType>
 class GenEigsBase
 {
+#ifdef SPECTRA_VERIF
+    friend struct ::SpectraVerifAccess;
+#endif
 private:
     using Scalar = typename OpType::Scalar;
     using Index = Eigen::Index;
@@ -135,6 +139,7 @@ private:
         m_fac.factorize_from(k, m_ncv, m_nmatop);
 
         retrieve_ritzpair(selection);
+        SPECTRA_VERIF_OBSERVE("gen.restart", this);
     }
 
     // Calculates the number of converged Ritz values
